@@ -12,6 +12,7 @@ CHECKS = {
  "C03": ("exploration", "seeded search over bystander workloads x disturber kinds (handler error, unknown/malformed method, refusal after shutdown, cancel, expiry, never-reading caller/handler, invalid strings) x relative timings (free-running or gated) x schedules; the disturbance is left to settle to final quiescence, then bystanders must finish as planned, the tunnel must be up, a fresh RPC must succeed", "6 C03"),
  "C04": ("fault_enumeration", "for seeded baselines every termination cause is injected at every frame boundary (thorough) or a stratified sample (quick), each run driven to final quiescence with all timers fired; oracles: nothing still blocked, Done/Err, serving calls returned, in-flight calls non-OK, late RPCs fail at once", "6 C04"),
  "C05": ("exploration", "seeded search at the granularity of single atomic operations over the flow-control sender and receiver in isolation (verif constructors; windows 1..65536; producer, frame pump, credit pump, pausing consumer, canceller) with a conservation invariant checked atomically after every harness step, stall classification (legitimate only with a parked consumer on a full window) and full restoration of the window at the end; plus whole-tunnel runs with many streams, stalled-then-resumed consumers, carrier capacity from one frame, and volume runs of 70000-200000 one-byte messages", "6 C05"),
+ "C06": ("exploration", "the wire monitor's window, chunk and credit rules (written from tunnel.proto) run on every frame of the message-flow, flow-control and teardown runs; a raw peer in both roles overruns the 64 KiB window by 1 byte .. 16 windows (one message or many, several chunk sizes, with and without genuinely consumed messages first) while the application is parked; oracles: queued bytes (verif accessor) <= window, the RPC ends ResourceExhausted, an in-flight bystander and a fresh RPC complete", "6 C06"),
  "C07": ("fault_enumeration", "for seeded baselines the RPC of interest is cancelled at every frame boundary (thorough) or a stratified sample (quick), plus a variant that holds back all delivery towards the caller, plus virtual-time deadlines; oracles: exactly one legal outcome, handler released, bystanders and a fresh RPC unaffected", "6 C07"),
  "C08": ("exploration", "seeded search: many goroutines released together start RPCs on one channel (some failing at start) under lock-granularity schedules, with the wire monitor checking that ids strictly increase and begin with new_stream and the history checking one invocation of the named handler per completed call; plus a raw tunnel client (both network roles) that reuses, reverses, negates, skips ids and sends frames for finished ids, followed by a probe stream", "6 C08"),
  "C10": ("fault_enumeration", "for seeded baselines graceful shutdown (InitiateShutdown / GracefulStop in its own goroutine) is initiated at every frame boundary (thorough) or a stratified sample (quick) of a workload of in-flight RPCs, further RPCs are attempted afterwards, the run is driven to final quiescence and Stop is called; oracles: RPCs started after shutdown took effect are refused with Unavailable and never reach a handler, in-flight RPCs complete as planned, the tunnel stays up for them, GracefulStop/Stop return when they should", "6 C10"),
